@@ -62,6 +62,7 @@ def main():
             for (i, j), v in J.items():
                 ag.set_resonance_coupling(i, j, v)
         ag.build()
+        ag._verif_reorgs_cm = list(reorgs)       # reference for the check
         return ag
 
     systems = [
@@ -136,10 +137,22 @@ def main():
         exc = numpy.diag(Hx)[nb0:]
         site = numpy.real(numpy.diag(Hs))[nb0:]
         reorg = numpy.zeros(n - nb0)
+        # a user looks the site reorganisation energies up under 1/cm first
+        # (they must be the ones the baths were built with, and looking must
+        # not influence what is computed later in other units)
+        with qr.energy_units("1/cm"):
+            for k0, want_cm in enumerate(ag._verif_reorgs_cm):
+                got_cm = float(ag.sbi.get_reorganization_energy(k0))
+                if abs(got_cm - want_cm) > 1e-9 * max(1.0, want_cm):
+                    ck.violation("boltzmann-ratios",
+                                 "site-reorganisation-energy",
+                                 dict(system=name, site=k0, got=got_cm,
+                                      want=want_cm), dict(system=name))
         for i in range(int(ag.Nb[1])):
             # reorganisation energy of the site the (vibronic) state sits on
-            reorg[i] = ag.sbi.get_reorganization_energy(
-                int(ag.elinds[nb0 + i]) - 1)
+            # (from the construction parameters, not from the library)
+            reorg[i] = ag._verif_reorgs_cm[
+                int(ag.elinds[nb0 + i]) - 1] * R.CM2INT
         emin = float(min(exc.min(), (site - reorg).min()))
         spread = float(max(exc.max() - exc.min(),
                            (site - reorg).max() - (site - reorg).min()))
